@@ -1145,6 +1145,11 @@ func (s *vSim) randomRun(o simOpts) {
 		nInit = 3
 		voters = []uint64{1, 2, 3}
 	}
+	if o.scenarios && s.tid%64 == 38 {
+		scen = 14
+		nInit = 2
+		voters = []uint64{1, 2}
+	}
 	if o.scenarios && s.tid%64 == 7 && s.tid%128 != 71 {
 		scen = 7
 		nInit = 3
@@ -1964,7 +1969,78 @@ func (s *vSim) scenario13() {
 	s.settle(2, nil, nil, nil, nil)
 }
 
+// scenario14 (two voters and a non-voting member): a read is pending on the leader - the heartbeat responses that
+// would confirm it are lost - when the removal of the other voter is applied: from then on the leader is the only
+// voting member, nobody is left whose heartbeat response could confirm the read. Meanwhile the non-voting member
+// is cut off, so that a probe sent to it is lost and its progress record waits. After the heal the non-voting
+// member is reachable again and must be brought up to date (C17: every reachable lagging replica catches up).
+func (s *vSim) scenario14(nextID uint64) uint64 {
+	s.settle(40, nil, nil, nil, func() bool { return s.leaderNode() != nil && s.leaderNode().applied >= 3 })
+	l := s.leaderNode()
+	if l == nil {
+		return nextID
+	}
+	s.proposeCC(l, opAddNonVoting, nextID)
+	s.settle(8, nil, nil, nil, nil)
+	if _, ok := s.firstKind[nextID]; !ok || s.nodes[nextID] != nil {
+		return nextID + 1
+	}
+	s.join(nextID, "N")
+	s.settle(8, nil, nil, nil, nil)
+	l = s.leaderNode()
+	if l == nil || len(s.upNodes()) != 3 {
+		return nextID + 1
+	}
+	var f *vNode
+	for _, n := range s.upNodes() {
+		if n.id != l.id && n.kind == "V" {
+			f = n
+		}
+	}
+	if f == nil {
+		return nextID + 1
+	}
+	nv := nextID
+	only := func(ids ...uint64) map[uint64]bool {
+		m := map[uint64]bool{}
+		for _, n := range s.upNodes() {
+			m[n.id] = true
+		}
+		for _, id := range ids {
+			delete(m, id)
+		}
+		return m
+	}
+	// the confirmations of the read never arrive; nothing reaches the non-voting member
+	lost := func(m pb.Message) bool {
+		return (m.Type == pb.HeartbeatResp && m.From == f.id) || m.To == nv || m.From == nv
+	}
+	s.nextCtx++
+	s.readIndex(l, s.nextCtx)
+	s.settle(2, lost, nil, only(l.id), nil)
+	s.proposeCC(l, opRemove, f.id)
+	s.settle(6, lost, nil, only(l.id), func() bool { return l.mem.rm[f.id] })
+	if !l.mem.rm[f.id] || l.peer.raft.state != leader {
+		return nextID + 1
+	}
+	// the transport reports the non-voting member unreachable (its host restarts): the leader falls back to
+	// probing it, and the probe is lost as well
+	s.unreachable(l, nv)
+	// the only voting member goes on; what it sends to the non-voting member is still lost
+	for i := 0; i < 2; i++ {
+		s.nextVal++
+		s.propose(l, s.nextVal)
+		s.settle(2, lost, nil, only(l.id), nil)
+	}
+	// heal
+	s.settle(2*int(s.et), nil, nil, only(l.id), nil)
+	return nextID + 1
+}
+
 func (s *vSim) scenario(k int, nextID uint64) uint64 {
+	if k == 14 {
+		return s.scenario14(nextID)
+	}
 	if k == 13 {
 		s.scenario13()
 		return nextID
